@@ -370,6 +370,172 @@ theorem sim_value (cfg : Cfg) (fuel : Nat) (ih : SimAt cfg fuel) :
                   obtain ⟨s1, R1, h1⟩ := reach_number cfg hctx s0 c cs lit r' hp hnd hvs he hstk hlvl
                   exact ⟨s1, R1.cast (by simp [eventsOf]), h1⟩
 
+theorem sim_elems (cfg : Cfg) (fuel : Nat) (ih : SimAt cfg fuel) :
+    ∀ (n : Nat) (s : Bytes) (xs : List JT) (r : Bytes), parseElems (strictFlags cfg) (fuel + 1) (n + 1) s = some (xs, r) →
+    ∀ (stk : List PS) (s0 : St), Ctx stk n → s0.stack = .array :: stk → s0.level = n + 1 → s0.err = none → vState s0.st = true →
+      ∃ s1, Reach cfg s0 s s1 r (eventsOfElems xs ++ [.endArray]) ∧ Shape s1 (afterSt n) stk n := by
+  obtain ⟨ihV, ihE, _⟩ := ih
+  intro n s xs r h stk s0 hctx hstk hlvl he hvs
+  simp only [parseElems] at h
+  cases hv : parseValue (strictFlags cfg) fuel (n + 1) s with
+  | none => simp [hv] at h
+  | some p =>
+    obtain ⟨v, s1⟩ := p
+    simp only [hv] at h
+    rw [skipWs_eq _ _ (Nat.lt_succ_self _)] at h
+    split at h
+    · -- the last element
+      rename_i rest heq
+      simp only [Option.some.injEq] at heq
+      simp only [Option.some.injEq, Prod.mk.injEq] at h
+      obtain ⟨rfl, rfl⟩ := h
+      obtain ⟨sV, RV, hV1, hV2, hV3⟩ := ihV (n + 1) s v s1 hv (dropWs_noDigit_of_head s1 93 rest heq (by decide))
+        (.array :: stk) s0 (Ctx.arr hctx) hstk hlvl he hvs
+      rw [afterSt_succ] at hV1
+      have RW := Reach.ws cfg sV s1 (by rw [hV1]; rfl) RV.2.1
+      rw [heq] at RW
+      obtain ⟨sE, RE, hE⟩ := reach_endArray cfg sV rest stk n (Or.inl hV1) RV.2.1 hV2 hV3
+      exact ⟨sE, (RV.trans (RW.trans RE)).cast (by simp [eventsOfElems]), hE⟩
+    · -- a comma
+      rename_i s2 heq
+      simp only [Option.some.injEq] at heq
+      rw [skipWs_eq _ _ (Nat.lt_succ_self _)] at h
+      obtain ⟨sV, RV, hV1, hV2, hV3⟩ := ihV (n + 1) s v s1 hv (dropWs_noDigit_of_head s1 44 s2 heq (by decide))
+        (.array :: stk) s0 (Ctx.arr hctx) hstk hlvl he hvs
+      rw [afterSt_succ] at hV1
+      have RW := Reach.ws cfg sV s1 (by rw [hV1]; rfl) RV.2.1
+      rw [heq] at RW
+      obtain ⟨sC, RC, hC1, hC2, hC3⟩ := reach_comma_array cfg sV s2 stk hV1 RV.2.1 hV2
+      rw [hV2] at hC2; rw [hV3] at hC3
+      have RW2 := Reach.ws cfg sC s2 (by rw [hC1]; rfl) RC.2.1
+      split at h
+      · rename_i heq2; simp at heq2
+      · simp at h
+      · rename_i s3 _ heq2
+        simp only [Option.some.injEq] at heq2
+        cases hm : parseElems (strictFlags cfg) fuel (n + 1) s3 with
+        | none => simp [hm] at h
+        | some p =>
+          obtain ⟨xs', r'⟩ := p
+          simp only [hm, Option.map_some, Option.some.injEq, Prod.mk.injEq] at h
+          obtain ⟨rfl, rfl⟩ := h
+          rw [heq2] at RW2
+          obtain ⟨sM, RM, hM⟩ := ihE n s3 xs' r' hm stk sC hctx hC2 hC3 RC.2.1 (by rw [hC1]; rfl)
+          exact ⟨sM, (RV.trans (RW.trans (RC.trans (RW2.trans RM)))).cast (by simp [eventsOfElems]), hM⟩
+    · simp at h
+
+theorem sim_members (cfg : Cfg) (fuel : Nat) (ih : SimAt cfg fuel) :
+    ∀ (n : Nat) (s : Bytes) (ms : List (Bytes × JT)) (r : Bytes), parseMembers (strictFlags cfg) (fuel + 1) (n + 1) s = some (ms, r) →
+    ∀ (stk : List PS) (s0 : St), Ctx stk n → s0.stack = .object :: stk → s0.level = n + 1 → s0.err = none →
+      (s0.st = .expectMemberNameOrEnd ∨ s0.st = .expectMemberName) →
+      ∃ s1, Reach cfg s0 s s1 r (eventsOfMembers ms ++ [.endObject]) ∧ Shape s1 (afterSt n) stk n := by
+  obtain ⟨ihV, _, ihM⟩ := ih
+  intro n s ms r h stk s0 hctx hstk hlvl he hs0
+  simp only [parseMembers] at h
+  cases hk : parseString s with
+  | none => simp [hk] at h
+  | some p =>
+    obtain ⟨k, s1⟩ := p
+    simp only [hk] at h
+    rw [skipWs_eq _ _ (Nat.lt_succ_self _)] at h
+    obtain ⟨sK, RK, hK1, hK2, hK3⟩ := reach_key cfg s0 s k s1 hk hs0 he
+    rw [hstk] at hK2; rw [hlvl] at hK3
+    have RW1 := Reach.ws cfg sK s1 (by rw [hK1]; rfl) RK.2.1
+    split at h
+    · rename_i s2 heq
+      simp only [Option.some.injEq] at heq
+      rw [heq] at RW1
+      obtain ⟨sC, RC, hC1, hC2, hC3⟩ := reach_colon cfg sK s2 hK1 RK.2.1
+      rw [hK2] at hC2; rw [hK3] at hC3
+      have RW2 := Reach.ws cfg sC s2 (by rw [hC1]; rfl) RC.2.1
+      rw [skipWs_eq _ _ (Nat.lt_succ_self _)] at h
+      simp only at h
+      cases hv : parseValue (strictFlags cfg) fuel (n + 1) (dropWs s2) with
+      | none => simp [hv] at h
+      | some p =>
+        obtain ⟨v, s4⟩ := p
+        simp only [hv] at h
+        rw [skipWs_eq _ _ (Nat.lt_succ_self _)] at h
+        split at h
+        · -- the last member
+          rename_i rest heq4
+          simp only [Option.some.injEq] at heq4
+          simp only [Option.some.injEq, Prod.mk.injEq] at h
+          obtain ⟨rfl, rfl⟩ := h
+          obtain ⟨sV, RV, hV1, hV2, hV3⟩ := ihV (n + 1) (dropWs s2) v s4 hv (dropWs_noDigit_of_head s4 125 rest heq4 (by decide))
+            (.object :: stk) sC (Ctx.obj hctx) hC2 hC3 RC.2.1 (by rw [hC1]; rfl)
+          rw [afterSt_succ] at hV1
+          have RW3 := Reach.ws cfg sV s4 (by rw [hV1]; rfl) RV.2.1
+          rw [heq4] at RW3
+          obtain ⟨sE, RE, hE⟩ := reach_endObject cfg sV rest stk n (Or.inl hV1) RV.2.1 hV2 hV3
+          exact ⟨sE, (RK.trans (RW1.trans (RC.trans (RW2.trans (RV.trans (RW3.trans RE)))))).cast
+            (by simp [eventsOfMembers]), hE⟩
+        · -- a comma
+          rename_i s5 heq4
+          simp only [Option.some.injEq] at heq4
+          rw [skipWs_eq _ _ (Nat.lt_succ_self _)] at h
+          obtain ⟨sV, RV, hV1, hV2, hV3⟩ := ihV (n + 1) (dropWs s2) v s4 hv (dropWs_noDigit_of_head s4 44 s5 heq4 (by decide))
+            (.object :: stk) sC (Ctx.obj hctx) hC2 hC3 RC.2.1 (by rw [hC1]; rfl)
+          rw [afterSt_succ] at hV1
+          have RW3 := Reach.ws cfg sV s4 (by rw [hV1]; rfl) RV.2.1
+          rw [heq4] at RW3
+          obtain ⟨sD, RD, hD1, hD2, hD3⟩ := reach_comma_object cfg sV s5 stk hV1 RV.2.1 hV2
+          rw [hV2] at hD2; rw [hV3] at hD3
+          have RW4 := Reach.ws cfg sD s5 (by rw [hD1]; rfl) RD.2.1
+          split at h
+          · rename_i heq5; simp at heq5
+          · simp at h
+          · rename_i s6 _ heq5
+            simp only [Option.some.injEq] at heq5
+            cases hm : parseMembers (strictFlags cfg) fuel (n + 1) s6 with
+            | none => simp [hm] at h
+            | some p =>
+              obtain ⟨ms', r'⟩ := p
+              simp only [hm, Option.map_some, Option.some.injEq, Prod.mk.injEq] at h
+              obtain ⟨rfl, rfl⟩ := h
+              rw [heq5] at RW4
+              obtain ⟨sM, RM, hM⟩ := ihM n s6 ms' r' hm stk sD hctx hD2 hD3 RD.2.1 (Or.inr hD1)
+              exact ⟨sM, (RK.trans (RW1.trans (RC.trans (RW2.trans (RV.trans (RW3.trans (RD.trans (RW4.trans RM)))))))).cast
+                (by simp [eventsOfMembers]), hM⟩
+        · simp at h
+    · simp at h
+
+theorem simAt (cfg : Cfg) : ∀ fuel, SimAt cfg fuel
+  | 0 => simAt_zero cfg
+  | fuel + 1 => ⟨sim_value cfg fuel (simAt cfg fuel), sim_elems cfg fuel (simAt cfg fuel), sim_members cfg fuel (simAt cfg fuel)⟩
+
+/-- the whole document -/
+theorem run_complete (cfg : Cfg) (bs : Bytes) (v : JT) (h : parseText (strictFlags cfg) bs = some v) :
+    accepted (run cfg bs) = true ∧ er (run cfg bs).evs.reverse = eventsOf v := by
+  unfold parseText at h
+  rw [skipWs_eq _ _ (Nat.lt_succ_self _)] at h
+  simp only at h
+  cases hv : parseValue (strictFlags cfg) ((dropWs bs).length + 1) 0 (dropWs bs) with
+  | none => simp [hv] at h
+  | some p =>
+    obtain ⟨v', s2⟩ := p
+    simp only [hv] at h
+    rw [skipWs_eq _ _ (Nat.lt_succ_self _)] at h
+    split at h
+    · rename_i heq
+      simp only [Option.some.injEq] at heq h
+      subst h
+      have RW := Reach.ws cfg init bs rfl rfl
+      obtain ⟨sV, RV, hV1, _, _⟩ := (simAt cfg _).1 0 (dropWs bs) v' s2 hv
+        (noDigitHead_of_dropWs s2 (by rw [heq]; exact noDigitHead_nil)) [.root] init Ctx.root rfl rfl rfl rfl
+      have R := RW.trans RV
+      obtain ⟨sF, f1, f2, f3, f4⟩ := feed_ws_accept cfg s2 sV (Or.inl hV1) RV.2.1 heq
+      obtain ⟨a1, a2⟩ := finish_accept sF f2 f3
+      have hrun : run cfg bs = finish sF := by
+        unfold run; rw [R.1, f1]
+      rw [hrun]
+      refine ⟨a1, ?_⟩
+      rw [a2, f4]
+      have := R.2.2
+      simp only [init, er, List.map_nil, List.append_nil, List.nil_append] at this
+      simp only [er, List.map_reverse, this, List.reverse_reverse]
+    · simp at h
+
 end JsonParser
 end Model
 end JV
